@@ -377,8 +377,20 @@ static const char *infer_expr_struct_type(CG *cg, ASTNode *node) {
         return node->as.struct_literal.struct_name;
     }
 
-    if (node->type == AST_CALL && node->as.call.return_struct_type_name) {
-        return node->as.call.return_struct_type_name;
+    if (node->type == AST_CALL) {
+        if (node->as.call.return_struct_type_name) {
+            return node->as.call.return_struct_type_name;
+        }
+        /* The type checker only annotates some call nodes; the callee's declaration always knows the struct
+         * it returns.  Without this `(mk 1).s` fell back to "the first struct that has a field called s" and
+         * read the field at THAT struct's index. */
+        if (node->as.call.name) {
+            Function *callee = env_get_function(cg->env, node->as.call.name);
+            if (callee && callee->return_type == TYPE_STRUCT && callee->return_struct_type_name) {
+                return callee->return_struct_type_name;
+            }
+        }
+        return NULL;
     }
 
     if (node->type == AST_FIELD_ACCESS) {
